@@ -197,7 +197,11 @@ func H_C14_Count() {
 		cnt = d.DiffCount
 	}
 	want := rt.IteInt(di, 1, 0) + rt.IteInt(dj, 1, 0)
-	rt.Assert(cnt == want, "C14.count.pair")
+	site := "C14.count.pair." + nodeFieldNames[scal[i]] + "." + nodeFieldNames[scal[j]]
+	if scal[i] == fSuppliers || scal[j] == fSuppliers {
+		site = "C14.count.pair.Suppliers." + nodeFieldNames[scal[i]] + "." + nodeFieldNames[scal[j]]
+	}
+	rt.Assert(cnt == want, site)
 }
 
 var _ = timestamppb.New
